@@ -7,7 +7,11 @@
       4. drop names of a `global` statement already declared earlier in the same scope
          (function / async function / class body); a statement that becomes empty is dropped;
       5. replace `operator.<f>(a, b)` by the native operator with the reference meaning of
-         <f>, same operands, same order.
+         <f>, same operands, same order;
+      6. on a `try` without handlers whose `finally` clause is entirely dropped by 1-4, leave
+         `finally: pass` (Python has no try statement with neither).
+    The result must moreover be a statement tree Python accepts wherever the input was one
+    ([wf]: no compound statement with an empty body, no `try` with neither handlers nor finally).
     Everything else must be unchanged.  The relation threads the set of names declared
     `global` so far in the current scope (d -> d'). *)
 From Coq Require Import List NArith Bool.
@@ -110,6 +114,10 @@ Inductive al : list N -> tree -> tree -> list N -> Prop :=
     al d test test' d0 -> alsl d0 body [] d1 -> alsl d1 orelse orelse' d2 -> orelse' <> [] ->
     al d (Nd T_If [test; Nd T_LIST body; Nd T_LIST orelse])
          (Nd T_If [Nd T_UnaryOp [Nd T_Not []; test']; Nd T_LIST orelse'; Nd T_LIST []]) d2
+| al_try_pass d body body' orelse orelse' fin d1 d2 d3 :
+    al d body body' d1 -> al d1 orelse orelse' d2 -> alsl d2 fin [] d3 ->
+    al d (Nd T_Try [body; Nd T_LIST []; orelse; Nd T_LIST fin])
+         (Nd T_Try [body'; Nd T_LIST []; orelse'; Nd T_LIST [Nd T_Pass []]]) d3
 with als : list N -> list tree -> list tree -> list N -> Prop :=
 | s_nil d : als d [] [] d
 | s_cons d x x' d1 r r' d2 : al d x x' d1 -> als d1 r r' d2 -> als d (x :: r) (x' :: r') d2
@@ -316,6 +324,14 @@ Fixpoint chk (b a : tree) (d : list N) {struct b} : option (list N) :=
                       else None
                   | _, _ => None
                   end
+                else if N.eqb tg T_Try then
+                  match ks, ks' with
+                  | [body; Nd th []; orelse; Nd tf fin], [body'; Nd th' []; orelse'; Nd tf' [Nd tp []]] =>
+                      if N.eqb th T_LIST && N.eqb th' T_LIST && N.eqb tf T_LIST && N.eqb tf' T_LIST && N.eqb tp T_Pass then
+                        obind (chk body body' d) (fun d1 => obind (chk orelse orelse' d1) (fun d2 => drop_list fin d2))
+                      else None
+                  | _, _ => None
+                  end
                 else None
             end
       end
@@ -323,3 +339,30 @@ Fixpoint chk (b a : tree) (d : list N) {struct b} : option (list N) :=
 
 Definition check (b a : tree) : bool :=
   match chk b a [] with Some _ => true | None => false end.
+
+(** ---- well-formedness of a statement tree (what Python's compiler insists on) ---- *)
+Definition body_ok (t : tree) : bool := match t with Nd _ (_ :: _) => true | _ => false end.
+
+Definition node_ok (tg : N) (ks : list tree) : bool :=
+  if N.eqb tg T_Try then
+    match ks with
+    | [body; handlers; _; fin] => body_ok body && (body_ok handlers || body_ok fin)
+    | _ => true
+    end
+  else if N.eqb tg T_If || N.eqb tg T_While then
+    match ks with [_; body; _] => body_ok body | _ => true end
+  else if N.eqb tg T_ExceptHandler then
+    match ks with [_; _; body] => body_ok body | _ => true end
+  else if N.eqb tg T_FunctionDef || N.eqb tg T_AsyncFunctionDef then
+    match ks with _ :: _ :: body :: _ => body_ok body | _ => true end
+  else true.
+
+Fixpoint wf (t : tree) : bool :=
+  match t with
+  | At _ => true
+  | Nd tg ks => node_ok tg ks && all_trees wf ks
+  end.
+
+(** the full acceptance test of one (before, after) pair *)
+Definition accept (b a : tree) : bool := check b a && (wf a || negb (wf b)).
+Definition acceptable (b a : tree) : Prop := allowed b a /\ (wf b = true -> wf a = true).
